@@ -150,7 +150,7 @@ def run(ctx):
     # process is still alive when that worker would create its temporary file and it keeps the file for 2 s)
     for _ in range(ctx.pick(12, 100)):
         files = rng.sample(inputs, 2)
-        add("sigint", files, {"S4_VERIF_PLAN": "worker.start:1:0=400000;coord.recv:-1:*=300000;ntf.extracted:1:0=2000000"}, "ntf.registered", 0.05,
+        add("sigint", files, {"S4_VERIF_PLAN": "worker.start:1:0=250000;coord.recv:-1:*=700000;ntf.extracted:1:0=2000000"}, "ntf.registered", 0.05,
             phase="sigint:worker-starts-after-handler")
     # promptness: one worker silent for 8 s right after registering its temp file
     for _ in range(ctx.pick(6, 40)):
